@@ -36,3 +36,9 @@ package datadog
 //@   modifies chunk.numBytes, wbytes[cwriter(chunk)], wbytes[ref(chunk.writeBuffer)]
 //@   ensures  result.1 == nil ==> result.0 != nil && result.0.ID === chunk.id && !result.0.Saved
 //@   ensures[data-is-a-private-copy] result.1 == nil ==> isfresh(result.0.Data) || len(result.0.Data) == 0
+
+// a name ending in ".tmp" (a chunk file still being written, see util.WriteFileAt) is never recognised as a chunk (C04)
+//@ func (cfg *Config) MatchChunkID(chunkID string) bool
+//@   property C04 C03
+//@   modifies nothing
+//@   ensures[never-a-temporary-name] len(chunkID) >= 4 && chunkID[len(chunkID)-4] == 46 && chunkID[len(chunkID)-3] == 116 && chunkID[len(chunkID)-2] == 109 && chunkID[len(chunkID)-1] == 112 ==> !result
